@@ -27,7 +27,7 @@ OPTS = STR_OPTS + ["version"] + BOOL_OPTS + LIST_OPTS
 CLIFLAG = {"url": "--url", "ofxhome": "--ofxhome", "org": "--org", "fid": "--fid", "brokerid": "--brokerid", "bankid": "--bankid",
            "appid": "--appid", "appver": "--appver", "language": "--language", "useragent": "--useragent", "user": "--user",
            "clientuid": "--clientuid", "version": "--version", "pretty": "--pretty", "nonewfileuid": "--nonewfileuid",
-           "skipprofile": "--skipprofile", "checking": "-C", "savings": "-S", "moneymrkt": "-M", "creditline": "-L",
+           "skipprofile": "--skipprofile", "unclosedelements": "--unclosedelements", "checking": "-C", "savings": "-S", "moneymrkt": "-M", "creditline": "-L",
            "creditcard": "-c", "investment": "-i"}
 POOL = {"url": ["https://a.invalid/ofx", "https://b.invalid/?a=1%20b", "https://c.invalid/x;y=z&k=v%41", "https://fi.invalid/ofx",
                 # (a URL is taken as typed: an empty query / fragment marker or an upper-case scheme is not "cleaned up")
@@ -134,7 +134,7 @@ def run(ctx):
                 if rnd.random() < 0.7:
                     text0 += "[%s]\n" % s_
                     for o in OPTS:
-                        if o in ("clientuid", "ofxhome", "unclosedelements") or rnd.random() > 0.25:
+                        if o in ("clientuid", "ofxhome") or rnd.random() > 0.25 or (o == "unclosedelements" and rnd.random() < 0.7):
                             continue
                         if o in BOOL_OPTS:
                             text0 += "%s = %s\n" % (o, rnd.choice(["true", "yes", "on", "1", "True", "YES"]))
@@ -160,8 +160,8 @@ def run(ctx):
             srv = rnd.choice(["srv1", "srv1", "srv2"])
             cli = {}
             for o in OPTS:
-                if o == "unclosedelements":
-                    continue
+                if o == "unclosedelements" and rnd.random() < 0.6:
+                    continue      # (with a 2xx version the request itself is impossible: mostly left out)
                 if rnd.random() < 0.18:
                     if o in LIST_OPTS:
                         cli[o] = rnd.choice(LISTS)
